@@ -122,7 +122,7 @@ def run(ctx):
     ctx.extra["rule"] = (
         "per configuration: (A) serial vc2-test-case-generator run; (B) the emitted worker commands run one at a time in a "
         "shuffled order, each under a random PYTHONHASHSEED, recording each command's write set; (C) the commands run "
-        "concurrently (16 processes) in another shuffled order; trees compared byte for byte; write sets checked pairwise "
+        "concurrently (16 processes) in another shuffled order; (D) every command alone in a fresh empty directory (its files must equal its share of the serial run); trees compared byte for byte; write sets checked pairwise "
         "path-disjoint; evaluations = worker command executions + serial runs; distinct non-trivial = distinct commands that wrote >= 1 file")
     # custom_qm first: a configuration with a non-default option exposes shared-object mutation between generators
     variants = ctx.pick(["custom_qm+sibling_par"],
@@ -201,6 +201,28 @@ def run(ctx):
             if d:
                 ctx.violation("concurrent-run-differs-from-serial", {"variant": variant, "order": order2, "files": d[:10]},
                               "%d files differ or are missing between the serial run and the concurrent run" % len(d))
+            # (D) every command on its own in a fresh, empty working directory: "independent" also means that no command
+            # relies on a directory or file another command happens to have created first
+            solo_root = os.path.join(base, "solo")
+            solo_dirs = []
+            for i in range(len(cmds)):
+                dd = os.path.join(solo_root, "%03d" % i)
+                os.makedirs(dd)
+                solo_dirs.append(dd)
+            with concurrent.futures.ThreadPoolExecutor(max_workers=16) as ex:
+                res = list(ex.map(run_worker, [(cmds[i], rng.randrange(1, 1 << 30), solo_dirs[i]) for i in range(len(cmds))]))
+            ctx.count(len(cmds), bucket="worker-solo-fresh-directory")
+            for i, (rc, e) in enumerate(res):
+                if rc != 0:
+                    ctx.violation("worker-command-fails-alone-in-fresh-directory", {"variant": variant, "command_index": i}, e)
+                    continue
+                t_i = tree(os.path.join(solo_dirs[i], "out"))
+                bad = [k for k in sorted(set(t_i) | set(write_sets.get(i, []))) if t_i.get(k) != tree_a.get(k) or k not in t_i]
+                if bad:
+                    ctx.violation("solo-run-differs-from-serial", {"variant": variant, "command_index": i, "files": bad[:10]},
+                                  "command %d run alone in a fresh directory writes %d files that differ from (or are missing relative to) "
+                                  "its share of the serial run" % (i, len(bad)))
+            shutil.rmtree(solo_root, ignore_errors=True)
             ctx.sample({"variant": variant, "commands": len(cmds), "files": len(tree_a), "sequential_order": order[:10],
                         "concurrent_order": order2[:10], "example_write_set": write_sets[order[0]][:5]})
             if ctx.tier == "thorough":
